@@ -46,6 +46,7 @@ func (r *Raft) replyRPC(rpc *rpc) (resetTimer bool) {
 		} else {
 			rpc.resp = rpcIdentity.createResp(r, success, nil)
 		}
+		verifRPC(r, rpc)
 		close(rpc.done)
 		return req.src == r.leader
 	}
@@ -61,6 +62,7 @@ func (r *Raft) replyRPC(rpc *rpc) (resetTimer bool) {
 	if trace {
 		println(r, ">>", rpc.resp)
 	}
+	verifRPC(r, rpc)
 	close(rpc.done)
 
 	if result == unexpectedErr {
@@ -303,6 +305,7 @@ func (r *Raft) onInstallSnapRequest(req *installSnapReq, c *conn) (rpcResult, er
 	if doneErr != nil {
 		return unexpectedErr, opError(doneErr, "snapshotSink.done")
 	}
+	verifPointR(r, "install.stored")
 
 	discardLog := true
 	if r.storage.log.Contains(meta.index) {
@@ -331,12 +334,14 @@ func (r *Raft) onInstallSnapRequest(req *installSnapReq, c *conn) (rpcResult, er
 		// restore fsm from this snapshot
 		r.fsm.ch <- fsmRestoreReq{r.fsmRestoredCh}
 		r.commitIndex = r.snaps.index
+		verifCommit(r)
 
 		// load snapshot config as cluster configuration
 		r.changeConfig(meta.config)
 		r.commitConfig()
 	}
 
+	verifPointR(r, "install.logHandled")
 	return success, nil
 }
 
